@@ -195,6 +195,28 @@ func (its *WiredDatatype) excludeDuplicatedOperations(ppp *model.PushPullPack) {
 	ppp.Operations = others
 }
 
+// checkLastTransaction refuses operations that end in the middle of a transaction: a push that was interrupted
+// while it was being stored leaves the beginning of a transaction at the end of the log until it is retried.
+// Such a pack is handled like a response that never arrived: nothing is applied and the checkpoint stays, so the
+// next sync pulls the same operations again, together with the end of the transaction.
+func (its *WiredDatatype) checkLastTransaction(ops []*model.Operation) errors.OrdaError {
+	for i := 0; i < len(ops); {
+		n := 1
+		if ops[i].GetOpType() == model.TypeOfOperation_TRANSACTION {
+			txOp, ok := operations.ModelToOperation(ops[i]).(*operations.TransactionOperation)
+			if !ok || txOp.GetNumOfOps() < 1 {
+				return nil // malformed: refused when it is executed
+			}
+			n = int(txOp.GetNumOfOps())
+		}
+		if i+n > len(ops) {
+			return errors.DatatypeTransaction.New(its.L(), "the received operations end in the middle of a transaction")
+		}
+		i += n
+	}
+	return nil
+}
+
 func (its *WiredDatatype) syncCheckPoint(newCheckPoint *model.CheckPoint) {
 	oldCheckPoint := its.checkPoint.Clone()
 	if its.checkPoint.Cseq < newCheckPoint.Cseq {
@@ -260,6 +282,9 @@ func (its *WiredDatatype) ApplyPushPullPack(ppp *model.PushPullPack) {
 		if !subscribing {
 			its.excludeDuplicatedOperations(ppp)
 		}
+		err = its.checkLastTransaction(ppp.Operations)
+	}
+	if err == nil {
 		verifhook.At("WiredDatatype.ApplyPushPullPack:excluded", its.opID.CUID+"/"+its.Key)
 		its.syncCheckPoint(ppp.CheckPoint)
 		oldState, newState, err = its.updateStateOfDatatype(ppp)
